@@ -108,6 +108,180 @@ fn predictor_jobs() -> Vec<Vec<u8>> {
     out
 }
 
+/// Stream dictionaries written from the grammar (ISO 32000-1 7.3.8.2 table 5, 7.4.1): /Filter is a name or an array of names,
+/// /DecodeParms a dictionary or an array "parallel" to it whose entries are dictionaries or null -- but both come from the
+/// file, so nothing makes them agree.  The family is the product of
+///  - every filter chain of length 0..=3 over FlateDecode, LZWDecode, ASCII85Decode (a chain of one also as a bare name),
+///    and six odd spellings (a number, null, [7], a non-name after a filter, an unknown filter alone and after a filter);
+///  - /DecodeParms absent, one of five values (null, a dictionary without effect, a dictionary with a PNG predictor, the
+///    integer 7, a reference to an object that does not exist) or an array of 0..=n+1 entries for a chain of n filters
+///    (shorter, parallel, longer), all entries the same of those five values (thorough: every array over null, the
+///    dictionary without effect and 7 as well);
+///  - the data encoded correctly for the chain (so that every stage of the chain is reached), or cut in half;
+///  - the place of the stream in a one-page file: the page's content stream, an object stream that holds the page, the
+///    cross-reference stream.
+fn filter_shape_jobs(thorough: bool) -> Vec<Vec<u8>> {
+    const NAMES: [&str; 3] = ["FlateDecode", "LZWDecode", "ASCII85Decode"];
+    const VALUES: [&str; 5] = ["null", "<</Predictor 1/EarlyChange 1>>", "<</Predictor 12/Columns 1>>", "7", "99 0 R"];
+    // (spelling of /Filter, the filters that the data is encoded for in decoding order, number of filters spelled)
+    let mut filters: Vec<(String, Vec<usize>, usize)> = vec![];
+    for n in 0..=3usize { for code in 0..3usize.pow(n as u32) {
+        let chain: Vec<usize> = (0..n).map(|i| code / 3usize.pow(i as u32) % 3).collect();
+        let names: Vec<String> = chain.iter().map(|f| format!("/{}", NAMES[*f])).collect();
+        if n == 1 { filters.push((names[0].clone(), chain.clone(), 1)); }
+        filters.push((format!("[{}]", names.join(" ")), chain, n));
+    } }
+    for (odd, n) in [("7", 1usize), ("null", 1), ("[7]", 1), ("[/FlateDecode 7]", 2), ("/DCTDecode", 1), ("[/FlateDecode /DCTDecode]", 2)] { filters.push((odd.to_string(), if odd.contains("Flate") { vec![0] } else { vec![] }, n)); }
+    let mut out = vec![];
+    for (spelling, chain, n) in &filters {
+        let mut parms: Vec<Option<String>> = vec![None];
+        for v in VALUES { parms.push(Some(v.to_string())); }
+        parms.push(Some("[]".to_string()));
+        for l in 1..=n + 1 {
+            for v in VALUES { parms.push(Some(format!("[{}]", vec![v; l].join(" ")))); }
+            if thorough { for code in 0..3usize.pow(l as u32) {
+                let entries: Vec<&str> = (0..l).map(|i| [VALUES[0], VALUES[1], VALUES[3]][code / 3usize.pow(i as u32) % 3]).collect();
+                if entries.iter().any(|e| *e != entries[0]) { parms.push(Some(format!("[{}]", entries.join(" ")))); }
+            } }
+        }
+        for parm in &parms { for host in 0..3usize { for cut in [false, true] {
+            let extra = format!("/Filter {}{}", spelling, parm.as_ref().map(|p| format!("/DecodeParms {}", p)).unwrap_or_default());
+            out.push(stream_host_file(host, &extra, chain, cut));
+        } } }
+    }
+    out
+}
+fn enc_flate(d: &[u8]) -> Vec<u8> { use std::io::Write as _; let mut e = flate2::write::ZlibEncoder::new(Vec::new(), flate2::Compression::default()); e.write_all(d).unwrap(); e.finish().unwrap() }
+fn enc_lzw(d: &[u8]) -> Vec<u8> { weezl::encode::Encoder::with_tiff_size_switch(weezl::BitOrder::Msb, 8).encode(d).unwrap_or_default() }
+fn enc_a85(d: &[u8]) -> Vec<u8> {
+    let mut out = vec![];
+    for chunk in d.chunks(4) {
+        let mut v: u32 = 0; for i in 0..4 { v = (v << 8) | *chunk.get(i).unwrap_or(&0) as u32; }
+        let mut digits = [0u8; 5]; for i in (0..5).rev() { digits[i] = (v % 85) as u8 + b'!'; v /= 85; }
+        out.extend_from_slice(&digits[..chunk.len() + 1]);
+    }
+    out.extend_from_slice(b"~>"); out
+}
+/// `plain` encoded for a chain of filters given in decoding order (0 Flate, 1 LZW, 2 ASCII85), optionally cut in half
+fn encode_chain(plain: &[u8], chain: &[usize], cut: bool) -> Vec<u8> {
+    let mut d = plain.to_vec();
+    for f in chain.iter().rev() { d = match f { 0 => enc_flate(&d), 1 => enc_lzw(&d), _ => enc_a85(&d) }; }
+    if cut { d.truncate(d.len() / 2); }
+    d
+}
+fn stream_obj(id: u32, dict: &str, data: &[u8]) -> Vec<u8> { let mut o = format!("<<{}/Length {}>>\nstream\n", dict, data.len()).into_bytes(); o.extend_from_slice(data); o.extend_from_slice(b"\nendstream"); let _ = id; o }
+/// one-page PDF 1.5 file whose stream number 4 (host 0: the page's content stream; host 1: an object stream holding the page,
+/// object 3) or 5 (host 2: the cross-reference stream) has `extra` in its dictionary and its data encoded for `chain`
+fn stream_host_file(host: usize, extra: &str, chain: &[usize], cut: bool) -> Vec<u8> {
+    let mut f: Vec<u8> = b"%PDF-1.5\n".to_vec();
+    let mut offs: Vec<(u32, usize)> = vec![];
+    let mut put = |f: &mut Vec<u8>, id: u32, body: &[u8]| { offs.push((id, f.len())); f.extend_from_slice(format!("{} 0 obj\n", id).as_bytes()); f.extend_from_slice(body); f.extend_from_slice(b"\nendobj\n"); };
+    put(&mut f, 1, b"<</Type/Catalog/Pages 2 0 R>>");
+    put(&mut f, 2, b"<</Type/Pages/Kids[3 0 R]/Count 1/MediaBox[0 0 200 200]>>");
+    let page = "<</Type/Page/Parent 2 0 R/Contents 4 0 R>>";
+    let content = b"BT /F1 12 Tf 72 712 Td (Hello, world!) Tj ET\nBT /F1 12 Tf 72 700 Td (Hello, world!) Tj ET\n";
+    match host {
+        0 => { put(&mut f, 3, page.as_bytes()); put(&mut f, 4, &stream_obj(4, extra, &encode_chain(content, chain, cut))); }
+        1 => { let body = format!("3 0 {}", page.replace("/Contents 4 0 R", "")); put(&mut f, 4, &stream_obj(4, &format!("/Type/ObjStm/N 1/First 4{}", extra), &encode_chain(body.as_bytes(), chain, cut))); }
+        _ => { put(&mut f, 3, page.as_bytes()); put(&mut f, 4, &stream_obj(4, "", content)); }
+    }
+    if host == 0 {
+        let xr = f.len();
+        f.extend_from_slice(b"xref\n0 5\n0000000000 65535 f \n");
+        for (_, o) in &offs { f.extend_from_slice(format!("{:010} 00000 n \n", o).as_bytes()); }
+        f.extend_from_slice(format!("trailer\n<</Size 5/Root 1 0 R>>\nstartxref\n{}\n%%EOF\n", xr).as_bytes());
+        return f;
+    }
+    let xpos = f.len();
+    offs.push((5, xpos));
+    let mut ent: std::collections::BTreeMap<u32, (u8, u16, u8)> = std::collections::BTreeMap::new();
+    ent.insert(0, (0, 0, 255));
+    if host == 1 { ent.insert(3, (2, 4, 0)); }
+    for (id, o) in &offs { ent.insert(*id, (1, *o as u16, 0)); }
+    let mut rows: Vec<u8> = vec![];
+    for (_, (t, a, b)) in &ent { rows.push(*t); rows.extend_from_slice(&a.to_be_bytes()); rows.push(*b); }
+    let (x_extra, x_data) = if host == 2 { (extra, encode_chain(&rows, chain, cut)) } else { ("", rows) };
+    f.extend_from_slice(format!("5 0 obj\n<</Type/XRef/Size 6/W[1 2 1]/Root 1 0 R{}/Length {}>>\nstream\n", x_extra, x_data.len()).as_bytes());
+    f.extend_from_slice(&x_data);
+    f.extend_from_slice(format!("\nendstream\nendobj\nstartxref\n{}\n%%EOF\n", xpos).as_bytes());
+    f
+}
+
+/// Size scaling.  The property bounds time, stack and memory by a modest function of the input SIZE, and that can only be
+/// observed on inputs of growing size: every other family of this module holds inputs of a few hundred bytes.  Here one
+/// repeatable construct of the file structure (ISO 32000-1 7.5) is repeated n times, n = 10, 100, .. 10^6 (thorough also
+/// 30, 300, .. 3 * 10^5; the three structural scalings stop at 10^4, thorough 3 * 10^4) in a well-formed one-page file of up to 10 MB:
+///  - `token <context> <n> <token>`: each keyword or delimiter of the file structure on n lines of their own, in each of the
+///    five places where a file may hold arbitrary bytes: before the header, in comment lines between the objects and the
+///    cross-reference table, in the data of a stream (correct /Length), in a literal string, after the last %%EOF;
+///  - `updates <n>`: n incremental updates (object, one-entry cross-reference section, trailer with /Prev, startxref, %%EOF);
+///  - `objects <n>`: n more objects in the one cross-reference section;
+///  - `subsections <n>`: the same with one cross-reference subsection per object.
+/// A job holds this description only; the file (up to some MB) is built when the job runs.
+const SCALED_TOKENS: &[&str] = &["%PDF-1.5", "%%EOF", "startxref", "xref", "trailer", "obj", "endobj", "stream", "endstream", "R", "<<", ">>", "[", "]", "(", ")"];
+const SCALED_CONTEXTS: &[&str] = &["head", "comment", "stream", "string", "tail"];
+fn scaled_jobs(thorough: bool) -> Vec<Vec<u8>> {
+    let mut out = vec![];
+    let ns: &[usize] = if thorough { &[10, 30, 100, 300, 1000, 3000, 10_000, 30_000, 100_000, 300_000, 1_000_000] } else { &[10, 100, 1000, 10_000, 100_000, 1_000_000] };
+    for t in SCALED_TOKENS { for c in SCALED_CONTEXTS { for n in ns { out.push(format!("token {} {} {}", c, n, t).into_bytes()); } } }
+    // the three structural scalings stop at 10^4 (thorough 3 * 10^4): every object costs a parse
+    let ms: &[usize] = if thorough { &[10, 100, 1000, 10_000, 30_000] } else { &[10, 100, 1000, 10_000] };
+    for n in ms { out.push(format!("updates {}", n).into_bytes()); out.push(format!("objects {}", n).into_bytes()); out.push(format!("subsections {}", n).into_bytes()); }
+    out
+}
+fn scaled_words(desc: &[u8]) -> Vec<String> { String::from_utf8_lossy(desc).splitn(4, ' ').map(|w| w.to_string()).collect() }
+fn scaled_describe(desc: &[u8]) -> String {
+    let w = scaled_words(desc);
+    let g = |i: usize| w.get(i).cloned().unwrap_or_default();
+    match g(0).as_str() {
+        "token" => format!("a well-formed one-page file with the text {:?} on {} lines of their own {}", g(3), g(2), match g(1).as_str() { "head" => "before the %PDF header", "comment" => "as comment lines (\"%\" in front) between the last object and the cross-reference table", "stream" => "as the data of a stream object with the correct /Length", "string" => "inside the literal string that is object 5", _ => "after the final %%EOF" }),
+        "updates" => format!("a well-formed one-page file followed by {} incremental updates (one object, a one-entry cross-reference section, trailer with /Prev, startxref, %%EOF each)", g(1)),
+        "objects" => format!("a well-formed one-page file with {} more integer objects in its one cross-reference section", g(1)),
+        _ => format!("a well-formed one-page file with {} more integer objects, one cross-reference subsection each", g(1)),
+    }
+}
+fn scaled_file(desc: &[u8]) -> Vec<u8> {
+    let w = scaled_words(desc);
+    let g = |i: usize| w.get(i).cloned().unwrap_or_default();
+    let what = g(0);
+    let n: usize = g(if what == "token" { 2 } else { 1 }).parse().unwrap_or(0);
+    let (ctx, token) = if what == "token" { (g(1), g(3)) } else { (String::new(), String::new()) };
+    let rep = |prefix: &str| -> Vec<u8> { format!("{}{}\n", prefix, token).into_bytes().repeat(n) };
+    let mut f: Vec<u8> = vec![];
+    if ctx == "head" { f.extend_from_slice(&rep("")); }
+    f.extend_from_slice(b"%PDF-1.5\n");
+    let mut offs: Vec<usize> = vec![];
+    let mut put = |f: &mut Vec<u8>, body: &[u8]| { offs.push(f.len()); f.extend_from_slice(format!("{} 0 obj\n", offs.len()).as_bytes()); f.extend_from_slice(body); f.extend_from_slice(b"\nendobj\n"); };
+    put(&mut f, b"<</Type/Catalog/Pages 2 0 R>>");
+    put(&mut f, b"<</Type/Pages/Kids[3 0 R]/Count 1/MediaBox[0 0 200 200]>>");
+    put(&mut f, b"<</Type/Page/Parent 2 0 R/Contents 4 0 R>>");
+    put(&mut f, &stream_obj(4, "", b"BT ET"));
+    if ctx == "stream" { put(&mut f, &stream_obj(5, "", &rep(""))); }
+    if ctx == "string" { let mut s = b"(".to_vec(); s.extend_from_slice(&rep("")); s.push(b')'); put(&mut f, &s); }
+    if what == "objects" || what == "subsections" { for k in 0..n { put(&mut f, k.to_string().as_bytes()); } }
+    if ctx == "comment" { f.extend_from_slice(&rep("%")); }
+    let mut xr = f.len();
+    if what == "subsections" {
+        f.extend_from_slice(b"xref\n0 1\n0000000000 65535 f \n");
+        for (k, o) in offs.iter().enumerate() { f.extend_from_slice(format!("{} 1\n{:010} 00000 n \n", k + 1, o).as_bytes()); }
+    } else {
+        f.extend_from_slice(format!("xref\n0 {}\n0000000000 65535 f \n", offs.len() + 1).as_bytes());
+        for o in &offs { f.extend_from_slice(format!("{:010} 00000 n \n", o).as_bytes()); }
+    }
+    f.extend_from_slice(format!("trailer\n<</Size {}/Root 1 0 R>>\nstartxref\n{}\n%%EOF\n", offs.len() + 1, xr).as_bytes());
+    if what == "updates" { for k in 0..n {
+        let id = offs.len() + 1 + k;
+        let o = f.len(); f.extend_from_slice(format!("{} 0 obj\n{}\nendobj\n", id, k).as_bytes());
+        let x = f.len();
+        f.extend_from_slice(format!("xref\n{} 1\n{:010} 00000 n \ntrailer\n<</Size {}/Root 1 0 R/Prev {}>>\nstartxref\n{}\n%%EOF\n", id, o, id + 1, xr, x).as_bytes());
+        xr = x;
+    } }
+    if ctx == "tail" { f.extend_from_slice(&rep("")); }
+    f
+}
+/// the input proper of a job: a "doc-scaled" job holds the description of its file
+fn expand<'a>(kind: &str, bytes: &'a [u8]) -> std::borrow::Cow<'a, [u8]> { if kind == "doc-scaled" { std::borrow::Cow::Owned(scaled_file(bytes)) } else { std::borrow::Cow::Borrowed(bytes) } }
+
 /// CPU-time budget of one input: "time bounded by a modest function of the input size" = 1 s + 10 microseconds per byte
 /// (a floor of 100 KB/s on top of a constant that is some thousand times what the slowest small input needs)
 fn budget(len: usize) -> Duration { Duration::from_secs(1) + Duration::from_micros(10) * len as u32 }
@@ -163,7 +337,7 @@ fn cmap_seed() -> Vec<u8> { b"/CIDInit /ProcSet findresource begin 12 dict begin
 /// the entry points; `kind` selects which one consumes the bytes
 fn consume(kind: &str, bytes: &[u8]) {
     match kind {
-        "doc" => {
+        k if k.starts_with("doc") => {
             if let Ok(doc) = Document::load_mem(bytes) {
                 // touch what loading produced: pages, text, streams
                 let pages = doc.get_pages();
@@ -318,6 +492,13 @@ fn deferred_length_file(l: u64) -> Vec<u8> {
     f.extend_from_slice(format!("\nendstream\nendobj\nstartxref\n{}\n%%EOF\n", xpos).as_bytes());
     f
 }
+/// what the signal that ended a worker means (a stack overflow and a failed allocation both end in abort())
+fn died_of(st: std::process::ExitStatus) -> &'static str {
+    #[cfg(unix)]
+    { use std::os::unix::process::ExitStatusExt as _; return match st.signal() { Some(6) => " = SIGABRT: the process aborted (stack overflow on the 2 MiB stack, or an allocation that failed)", Some(11) => " = SIGSEGV", Some(9) => " = SIGKILL", _ => "" }; }
+    #[allow(unreachable_code)]
+    ""
+}
 fn find(h: &[u8], n: &[u8]) -> Option<usize> { h.windows(n.len()).position(|w| w == n) }
 
 /// nesting-depth inputs only (run on an unoptimised build of the library as well, where stack frames are largest)
@@ -352,6 +533,8 @@ fn all_jobs(thorough: bool) -> Vec<(String, Vec<u8>)> {
     for m in inline_image_jobs() { jobs.push(("content".into(), m)); }
     for m in cmap_range_jobs() { jobs.push(("cmap".into(), m)); }
     for m in predictor_jobs() { jobs.push(("predictor".into(), m)); }
+    for m in filter_shape_jobs(thorough) { jobs.push(("doc-filters".into(), m)); }
+    for m in scaled_jobs(thorough) { jobs.push(("doc-scaled".into(), m)); }
     // deal the jobs round-robin over the 16 workers' (contiguous) shares, so that one expensive family is not one worker's
     let n = jobs.len();
     let mut slots: Vec<Option<(String, Vec<u8>)>> = jobs.into_iter().map(Some).collect();
@@ -364,14 +547,26 @@ const WORKERS: usize = 16;
 /// worker: runs jobs[from..to] announcing each index first
 pub fn worker(from: usize, to: usize, thorough: bool) {
     let jobs = all_jobs(thorough);
+    // the watchdog of the parent wants a sign of life every 10 s.  An input over 400 KB has a CPU budget over 5 s, so that
+    // finishing within the budget (measured twice) may take longer than that: while such an input runs, and for at most twice
+    // its budget per measurement, this thread says "~" every 2 s.  Inputs up to 400 KB get no such allowance.
+    let allowance: std::sync::Arc<std::sync::Mutex<(Instant, Duration)>> = std::sync::Arc::new(std::sync::Mutex::new((Instant::now(), Duration::ZERO)));
+    { let a = allowance.clone(); std::thread::spawn(move || loop {
+        std::thread::sleep(Duration::from_secs(2));
+        let (t0, allowed) = *a.lock().unwrap();
+        if t0.elapsed() < allowed { let out = std::io::stdout(); let mut o = out.lock(); let _ = writeln!(o, "~"); let _ = o.flush(); }
+    }); }
     let h = std::thread::Builder::new().stack_size(2 * 1024 * 1024).spawn(move || {
         let out = std::io::stdout();
         for i in from..to.min(jobs.len()) {
             { let mut o = out.lock(); let _ = writeln!(o, "@{}", i); let _ = o.flush(); }
             let (k, b) = &jobs[i];
+            let b = expand(k, b);
+            let allow = |len: usize| { *allowance.lock().unwrap() = (Instant::now(), if budget(len) > Duration::from_secs(5) { 2 * budget(len) } else { Duration::ZERO }); };
+            allow(b.len());
             // "~" lines only tell the watchdog that the worker is alive (a second measurement is about to start)
-            let heartbeat = || { let mut o = out.lock(); let _ = writeln!(o, "~{}", i); let _ = o.flush(); };
-            match run_timed(k, b, &heartbeat) {
+            let heartbeat = || { allow(b.len()); let mut o = out.lock(); let _ = writeln!(o, "~{}", i); let _ = o.flush(); };
+            match run_timed(k, &b, &heartbeat) {
                 Err(p) => { let mut o = out.lock(); let _ = writeln!(o, "!{} panic: {}", i, p.replace('\n', " ")); let _ = o.flush(); }
                 Ok(Some(slow)) => { let mut o = out.lock(); let _ = writeln!(o, "!{} {}", i, slow); let _ = o.flush(); }
                 Ok(None) => {}
@@ -399,7 +594,7 @@ pub fn run_depth(thorough: bool) -> Report {
 
 pub fn run(thorough: bool) -> Report {
     let jobs = all_jobs(thorough);
-    let mut rep = Report::new("seeds: 4 small documents (table / xref stream / Flate+predictor xref stream with object stream / incremental), a content stream, a ToUnicode CMap, a text string; inputs: every single-byte substitution (quick: 25 lexically significant values, thorough: all 256) at every offset, every truncation, splices, 17 numeric extremes in every digit run, and in every digit run the second-order extremes floor((L-k)/d) and successor for L = 2^31-1, 2^32-1, 2^63-1, 2^64-1, k = 0..=8 (a value above 2^63-1 written as the negative integer that casts to it: -1..-9), d = 1 for documents (39 values; thorough d in 1,2,3,4,8: 85 values), d in 1..=8,12,16,24,32,48,64 for the content stream and the CMap (150 values), every <hex string> of the CMap replaced by 00.., 7FFF.., 8000.., FF.. of 1 to 5 bytes, W/Index/Prev/Length/Kids constructions (cycles, and chains of 2..5000 streams each taking its /Length from the next), 76 files whose stream /Length is a compressed object resolving after the parallel phase (values 0..700 in steps of 10 around the distance to the end of the file, and 2^32, 2^63-1), nesting depth up to 3000 (thorough 100000) for [ << ( and dictionaries, all filter-parameter selector combinations over six payloads (empty deflate, raw rows, ASCII85, and three zlib streams ending in a truncated predictor row); inline images BI..ID..EI (data size ceil(W*BPC*components/8)*H): colour space G, DeviceGray, RGB, DeviceRGB, CMYK, DeviceCMYK (abbreviated keys for the short names, full keys for the long ones) x BPC 1,2,4,8,16, each with the 150 second-order extremes at W, at H and at BPC, and for the short spellings the 39 x 39 pairs (d = 1) at W and H together (36345 content streams); ToUnicode CMaps written from the grammar: code length 1..=4 x bfrange lo, hi each over 0, 1, middle, max-1, max of that length (25 pairs: empty, single, reversed, half and full ranges up to 2^32 codes) x destination <0041>, <00660069>, [<0041>], [<0041> <0042>], [<0041> <00420043> <0044>], [] x the line once or three times x alone or after bfchar and bfrange definitions (2400 CMaps; each then decodes 7 code strings of 1..4-byte codes); Flate + predictor 2 and 12 with Colors 1,3,4 x BitsPerComponent 1,2,4,8,16 x the 150 extremes as Columns, and the 39 extremes (d = 1) as Colors, as BitsPerComponent, and as Columns and Colors together (7698); each input in a worker with a 2 MiB stack, 4 GB address space, a 10 s no-progress watchdog, and a CPU-time budget of 1 s + 10 us per input byte (process CPU time over all threads; measured a second time, smaller figure kept, unless exceeded more than 4 times)", false);
+    let mut rep = Report::new("seeds: 4 small documents (table / xref stream / Flate+predictor xref stream with object stream / incremental), a content stream, a ToUnicode CMap, a text string; inputs: every single-byte substitution (quick: 25 lexically significant values, thorough: all 256) at every offset, every truncation, splices, 17 numeric extremes in every digit run, and in every digit run the second-order extremes floor((L-k)/d) and successor for L = 2^31-1, 2^32-1, 2^63-1, 2^64-1, k = 0..=8 (a value above 2^63-1 written as the negative integer that casts to it: -1..-9), d = 1 for documents (39 values; thorough d in 1,2,3,4,8: 85 values), d in 1..=8,12,16,24,32,48,64 for the content stream and the CMap (150 values), every <hex string> of the CMap replaced by 00.., 7FFF.., 8000.., FF.. of 1 to 5 bytes, W/Index/Prev/Length/Kids constructions (cycles, and chains of 2..5000 streams each taking its /Length from the next), 76 files whose stream /Length is a compressed object resolving after the parallel phase (values 0..700 in steps of 10 around the distance to the end of the file, and 2^32, 2^63-1), nesting depth up to 3000 (thorough 100000) for [ << ( and dictionaries, all filter-parameter selector combinations over six payloads (empty deflate, raw rows, ASCII85, and three zlib streams ending in a truncated predictor row); inline images BI..ID..EI (data size ceil(W*BPC*components/8)*H): colour space G, DeviceGray, RGB, DeviceRGB, CMYK, DeviceCMYK (abbreviated keys for the short names, full keys for the long ones) x BPC 1,2,4,8,16, each with the 150 second-order extremes at W, at H and at BPC, and for the short spellings the 39 x 39 pairs (d = 1) at W and H together (36345 content streams); ToUnicode CMaps written from the grammar: code length 1..=4 x bfrange lo, hi each over 0, 1, middle, max-1, max of that length (25 pairs: empty, single, reversed, half and full ranges up to 2^32 codes) x destination <0041>, <00660069>, [<0041>], [<0041> <0042>], [<0041> <00420043> <0044>], [] x the line once or three times x alone or after bfchar and bfrange definitions (2400 CMaps; each then decodes 7 code strings of 1..4-byte codes); Flate + predictor 2 and 12 with Colors 1,3,4 x BitsPerComponent 1,2,4,8,16 x the 150 extremes as Columns, and the 39 extremes (d = 1) as Colors, as BitsPerComponent, and as Columns and Colors together (7698); stream dictionaries written from the grammar, in a one-page file as the page's content stream, as an object stream holding the page, and as the cross-reference stream: /Filter = every chain of 0..=3 of FlateDecode, LZWDecode, ASCII85Decode as an array (a chain of one also as a name) and six odd spellings (7, null, [7], [/FlateDecode 7], /DCTDecode, [/FlateDecode /DCTDecode]) x /DecodeParms absent, or null, <</Predictor 1/EarlyChange 1>>, <</Predictor 12/Columns 1>>, 7, a dangling reference, or an array of 0..=n+1 entries for n filters (shorter than, parallel to and longer than /Filter) all of one of these five values (thorough: also every mixed array over null, the first dictionary and 7) x data encoded correctly for the chain, so that every filter of the chain is reached, or cut in half (quick 6918, thorough 26754 files); size scaling (entry point doc-scaled; the other families hold inputs of some hundred bytes only): a well-formed one-page file with each of the 16 tokens %PDF-1.5, %%EOF, startxref, xref, trailer, obj, endobj, stream, endstream, R, <<, >>, [, ], (, ) on n lines of their own before the header, in comment lines before the cross-reference table, as the data of a stream with correct /Length, inside a literal string, and after the last %%EOF, n = 10, 100, .. 10^6 (thorough also 30, 300, .. 3 * 10^5): files up to 10 MB, and the same file with n incremental updates (object, one-entry xref section, trailer with /Prev, startxref, %%EOF), with n more objects in one xref section, and with n more objects in one xref subsection each, n = 10, 100, 1000, 10^4 (thorough 3 * 10^4) (quick 492, thorough 895 files, built when they run); each input in a worker with a 2 MiB stack, 4 GB address space, a 10 s no-progress watchdog (an input over 400 KB, whose budget is over 5 s: twice its budget), and a CPU-time budget of 1 s + 10 us per input byte (process CPU time over all threads; measured a second time, smaller figure kept, unless exceeded more than 4 times)", false);
     let n = jobs.len();
     let workers = WORKERS;
     let chunk = (n + workers - 1) / workers;
@@ -427,7 +622,7 @@ pub fn run(thorough: bool) -> Report {
                 let status = child.wait().ok();
                 if done { break; }
                 let culprit = last.unwrap_or(from);
-                let how = if hung { "no progress for 10 s (hang)".to_string() } else { format!("worker died: {:?}", status) };
+                let how = if hung { "no progress for 10 s (hang)".to_string() } else { format!("worker died: {:?}{}", status, status.map(died_of).unwrap_or_default()) };
                 fails.push((culprit, how));
                 from = culprit + 1;
             }
@@ -437,15 +632,20 @@ pub fn run(thorough: bool) -> Report {
     });
     rep.evaluations = n as u64; rep.nontrivial = n as u64;
     for (i, how) in results.into_iter().flatten() {
-        let (k, b) = &jobs[i];
+        let (k, job) = &jobs[i];
+        let b = &expand(k, job);
         let ob = if how.starts_with("panic") { "no-panic" } else if how.starts_with("slow") { "time-bound" } else if how.contains("hang") { "no-hang" } else { "no-abort" };
         // a CMap is told apart by its mapping sections, not by its prologue
         let sections = if k == "cmap" { find(b, b"endcodespacerange").map(|p| &b[(p + 18).min(b.len())..]).map(|t| &t[..find(t, b"endcmap").unwrap_or(t.len()).min(240)]) } else { None };
+        // a file of the stream-dictionary family by the dictionary that carries /Filter, a scaled file by its description
+        let filter_dict = if k == "doc-filters" { find(b, b"/Filter").map(|p| { let s = b[..p].iter().rposition(|c| *c == b'\n').map_or(0, |q| q + 1); &b[s..p + find(&b[p..], b"\nstream").unwrap_or(b.len() - p)] }) } else { None };
         let d = match sections {
+            _ if k == "doc-scaled" => format!("entry point {:?}: {} on a {}-byte input: {}", k, how, b.len(), scaled_describe(job)),
+            _ if filter_dict.is_some() => format!("entry point {:?}: {} on a {}-byte one-page file whose {} has the dictionary {}", k, how, b.len(), if find(b, b"/Type/ObjStm/N 1/First 4/Filter").is_some() { "object stream (it holds the page object)" } else if find(b, b"/Root 1 0 R/Filter").is_some() { "cross-reference stream" } else { "page content stream" }, String::from_utf8_lossy(filter_dict.unwrap_or_default())),
             Some(t) if !t.is_empty() => format!("entry point {:?}: {} on a {}-byte input whose mapping sections are {:?}", k, how, b.len(), String::from_utf8_lossy(t)),
             _ => format!("entry point {:?}: {} on a {}-byte input starting {:?}", k, how, b.len(), String::from_utf8_lossy(&b[..b.len().min(80)])),
         };
-        rep.fail(&format!("{}-{}", ob, k), d.clone(), json!({"kind": k, "bytes": hex(&b[..b.len().min(200_000)]), "len": b.len()}), d);
+        rep.fail(&format!("{}-{}", ob, k), d.clone(), json!({"kind": k, "bytes": hex(&job[..job.len().min(200_000)]), "len": b.len()}), d);
     }
     { let mut per: std::collections::BTreeMap<&str, usize> = Default::default(); for (k, _) in &jobs { *per.entry(k.as_str()).or_default() += 1; } rep.sample(format!("inputs per entry point: {:?}", per)); }
     rep.sample(format!("{} hostile inputs, e.g. {:?}", n, String::from_utf8_lossy(&jobs[n / 3].1[..jobs[n / 3].1.len().min(50)])));
@@ -460,20 +660,24 @@ pub fn replay(v: &Value) -> Result<(), String> {
     let exe = std::env::current_exe().unwrap();
     let mut child = Command::new("sh").arg("-c").arg(format!("ulimit -v 4000000; exec {} c04-one {} {}", exe.display(), kind, path.display())).stdout(Stdio::piped()).stderr(Stdio::null()).spawn().map_err(|e| e.to_string())?;
     let t0 = Instant::now();
+    // 10 s, or for an input over 400 KB the time that two measurements may take at twice its budget each
+    let len = v["len"].as_u64().unwrap_or(0) as usize;
+    let limit = if budget(len) > Duration::from_secs(5) { 4 * budget(len) } else { Duration::from_secs(10) };
     loop {
         if let Ok(Some(st)) = child.try_wait() {
             let _ = std::fs::remove_file(&path);
             // the child says in one short line why it exits with 101 (panic) or 102 (over the time budget)
             let mut said = String::new(); if let Some(mut o) = child.stdout.take() { use std::io::Read as _; let _ = o.read_to_string(&mut said); }
-            return if st.success() { Ok(()) } else if said.trim().is_empty() { Err(format!("worker died: {:?}", st)) } else { Err(said.trim().to_string()) };
+            return if st.success() { Ok(()) } else if said.trim().is_empty() { Err(format!("worker died: {:?}{}", st, died_of(st))) } else { Err(said.trim().to_string()) };
         }
-        if t0.elapsed() > Duration::from_secs(10) { let _ = child.kill(); let _ = std::fs::remove_file(&path); return Err("no result within 10 s (hang)".into()); }
+        if t0.elapsed() > limit { let _ = child.kill(); let _ = std::fs::remove_file(&path); return Err(format!("no result within {} s (hang)", limit.as_secs())); }
         std::thread::sleep(Duration::from_millis(50));
     }
 }
 
 pub fn one(kind: &str, path: &str) {
     let bytes = std::fs::read(path).unwrap_or_default();
+    let bytes = expand(kind, &bytes).into_owned();
     let k = kind.to_string();
     let h = std::thread::Builder::new().stack_size(2 * 1024 * 1024).spawn(move || run_timed(&k, &bytes, &|| {})).unwrap();
     match h.join() {
